@@ -42,6 +42,17 @@ def host_call_blocks(data_dev):
     set_data(data_dev, 0x800, b''.join(w.to_bytes(4, 'little') for w in words))
 
 
+def predecessor_for(rng, cfg):
+    """spec of a predecessor instance (machine.run_predecessor) whose extensions differ from cfg's"""
+    sec, virt = bool(cfg.get('have_security_ext')), bool(cfg.get('have_virt_ext'))
+    psec = rng.random() < 0.6
+    pvirt = psec and rng.random() < 0.5
+    if (psec, pvirt) == (sec, virt):
+        psec, pvirt = (not sec, False) if rng.random() < 0.5 else (True, not virt)
+    return {'config': dict(cfg, have_security_ext=psec, have_virt_ext=pvirt, memory_system_architecture='VMSA' if pvirt else cfg.get('memory_system_architecture', 'PMSA')
+                           if not virt else 'PMSA'), 'seed': rng.getrandbits(32)}
+
+
 def legal_modes(cfg):
     ms = ['usr', 'fiq', 'irq', 'svc', 'abt', 'und', 'sys']
     if cfg.get('have_security_ext', True):
